@@ -549,6 +549,7 @@ func runC06(c *Ctx) {
 	r.Doc("N13", "every division into the allotment map starts from the emptied map (nearest event before it is the reset)", 3)
 	r.Doc("N12", "the may-proceed answer of a dividing function is the for-all over the list it just divided", 3)
 	r.Doc("N17", "(= P2 refresh, D2 re-sort; v1) every change of the registered set re-sorts the list and re-divides the shares before the scheduler goes on", 3)
+	r.Doc("N18", "(= B9) the in-flight count changes only by -1 per release received: a count reset or freed elsewhere makes a later release underflow (fatal, nothing delivered afterwards), a count kept too high leaves handlers vacant with nothing in flight", 7)
 	r.Doc("N9", "(= P4) the pass over an input is left early only for lack of data, closure or stop", 4)
 	r.Doc("N8", "second-phase candidates: first the priorities that used up their allotment (tactic == 0), then those with actual < hypothetical share", 4)
 	for _, p := range []*Prog{c.V1, c.V2} {
@@ -578,6 +579,13 @@ func runC06(c *Ctx) {
 			c.R.Check(o.OK, "N5", strings.TrimPrefix(o.Key, "P1@"), o.Site, o.Detail, o.Detail)
 		}
 		checkN6(c, pr)
+		// N18 (= B9): the vacant handlers are HandlersQuantity - sum(actual): progress with nothing in
+		// flight needs actual to return to zero exactly with the releases
+		subb := &Ctx{V1: c.V1, V2: c.V2, Tier: c.Tier, R: NewReport("tmp", c.Tier)}
+		checkB9(subb, pr)
+		for _, o := range subb.R.Obls {
+			c.R.Check(o.OK, "N18", strings.TrimPrefix(o.Key, "B9@"), o.Site, o.Detail, o.Detail)
+		}
 		checkSpendLoopExits(c, pr, "N9")
 		// N17 (= P2 refresh, D2 re-sort): whenever the registered set changes the shares are divided
 		// anew before the scheduler goes on (a priority re-added without a share is never topped up
